@@ -28,7 +28,10 @@ def build():
             c("rd", a)
     for dst, src, n in ((3, 0, 29), (0, 5, 30), (10, 10, 8), (100, 96, 64), (96, 100, 64), (1, 0, 1), (0, 1, 1), (200, 199, 300),
                         (199, 200, 300), (1000, 1001, 4096), (1001, 1000, 4096), (3000, 2000, 3000), (2000, 3000, 3000),
-                        (65535 - 100, 65535 - 150, 101), (65535 - 150, 65535 - 100, 101), (7, 7, 0), (65536, 65536, 0)):
+                        (65535 - 100, 65535 - 150, 101), (65535 - 150, 65535 - 100, 101), (7, 7, 0), (65536, 65536, 0),
+                        # short counts (an inlined byte loop would be the temptation): every small distance x small count
+                        ) + tuple((400 + d, 400, n) for d in (1, 2, 3, 7, 15) for n in (2, 3, 4, 8, 15, 16, 17) if d < n) + \
+                        tuple((600, 600 + d, n) for d in (1, 2, 7, 15) for n in (2, 8, 16, 17) if d < n):
         c("cp", dst, src, n)
         rd(max(0, min(dst, src) - 8) & ~7, min(65536 - 8, max(dst, src) + min(n, 96) + 8), )
     c("fill", 16, 0xAB, 33); c("cp", 20, 16, 40); rd(8, 72)
